@@ -533,3 +533,350 @@ def remove_priority_rule(m, rid):
                "trying that scope's children: cleaning up after a nested unit that failed to match deletes an unrelated top-level table of the "
                "same name" % A.text(bad[0])[:60], m.loc(f, bad[0]))
     return r
+
+
+# ---------------------------------------------------------------------------------------------------------------
+# shared mutable state: an instance attribute that is changed in place must be bound to an object of the instance's own
+MUTATORS = {"append", "insert", "extend", "pop", "remove", "clear", "update", "add", "discard", "appendleft", "extendleft", "popleft",
+            "sort", "reverse", "setdefault", "popitem"}
+FRESH_CALLS = {"list", "dict", "set", "deque", "OrderedDict", "defaultdict", "collections.deque", "collections.OrderedDict",
+               "collections.defaultdict"}
+
+
+def _is_mutable_display(node):
+    if isinstance(node, (ast.List, ast.Dict, ast.Set, ast.ListComp, ast.DictComp, ast.SetComp)):
+        return True
+    return isinstance(node, ast.Call) and A.text(node.func) in FRESH_CALLS
+
+
+def _self_attr(node):
+    if isinstance(node, ast.Attribute) and isinstance(node.value, ast.Name) and node.value.id == "self":
+        return node.attr
+    return None
+
+
+def shared_state_scan(trees):
+    """trees: {label: ast.Module}.  Returns (obligations, findings): every `self.X = E` in a class in whose family (ancestors and
+    descendants, by base name) `self.X` is changed in place; a finding when E is an object that outlives the instance: a module-level or
+    class-level mutable, or a parameter's mutable default."""
+    classes = {}       # name -> [(label, ClassDef)]
+    for label, tree in trees.items():
+        for n in ast.walk(tree):
+            if isinstance(n, ast.ClassDef):
+                classes.setdefault(n.name, []).append((label, n))
+    parents = {name: {A.text(b).split(".")[-1] for (_, c) in lst for b in c.bases} for name, lst in classes.items()}
+    children = {}
+    for name, ps in parents.items():
+        for p in ps:
+            children.setdefault(p, set()).add(name)
+
+    def closure(name, rel):
+        seen, todo = set(), [name]
+        while todo:
+            x = todo.pop()
+            for y in rel.get(x, ()):
+                if y not in seen:
+                    seen.add(y)
+                    todo.append(y)
+        return seen
+
+    mutated = {}       # class name -> {attr: [node]}
+    assigns = {}       # class name -> [(label, func, attr, value node, stmt)]
+    for name, lst in classes.items():
+        for label, c in lst:
+            for f in c.body:
+                if not isinstance(f, (ast.FunctionDef, ast.AsyncFunctionDef)):
+                    continue
+                for n in ast.walk(f):
+                    if isinstance(n, ast.Call) and isinstance(n.func, ast.Attribute) and n.func.attr in MUTATORS:
+                        a = _self_attr(n.func.value)
+                        if a:
+                            mutated.setdefault(name, {}).setdefault(a, []).append(n)
+                    elif isinstance(n, (ast.Assign, ast.AugAssign, ast.Delete)):
+                        tg = n.targets if not isinstance(n, ast.AugAssign) else [n.target]
+                        for t in tg:
+                            if isinstance(t, ast.Subscript) and _self_attr(t.value):
+                                mutated.setdefault(name, {}).setdefault(_self_attr(t.value), []).append(n)
+                            if isinstance(n, ast.AugAssign) and _self_attr(t):
+                                mutated.setdefault(name, {}).setdefault(_self_attr(t), []).append(n)
+                    if isinstance(n, ast.Assign) and len(n.targets) == 1 and _self_attr(n.targets[0]):
+                        assigns.setdefault(name, []).append((label, c, f, _self_attr(n.targets[0]), n.value, n))
+    modlevel = {}      # label -> {name: node} of module-level mutables
+    for label, tree in trees.items():
+        d = {}
+        for n in tree.body:
+            if isinstance(n, ast.Assign) and len(n.targets) == 1 and isinstance(n.targets[0], ast.Name) and _is_mutable_display(n.value):
+                d[n.targets[0].id] = n
+        modlevel[label] = d
+    obligations, findings = [], []
+    for name, lst in assigns.items():
+        family = {name} | closure(name, parents) | closure(name, children)
+        for label, c, f, attr, val, stmt in lst:
+            sites = [s for k in family for s in mutated.get(k, {}).get(attr, ())]
+            if not sites:
+                continue
+            obligations.append((label, name, f.name, attr, stmt))
+            why = None
+            if isinstance(val, ast.Name):
+                params = dict(A.param_defaults(f))
+                if val.id in params and params[val.id] is not None and _is_mutable_display(params[val.id]):
+                    why = "the mutable default value of parameter `%s` (one object for all calls)" % val.id
+                elif val.id in modlevel[label] and not any(isinstance(x, ast.Name) and x.id == val.id and isinstance(x.ctx, ast.Store)
+                                                           for x in ast.walk(f)) and val.id not in A.param_names(f):
+                    why = "the module-level object `%s` (one object for all instances)" % val.id
+            elif isinstance(val, ast.Attribute) and isinstance(val.value, ast.Name):
+                owner = val.value.id
+                cands = [c] if owner in ("self", "cls") else [cc for (_, cc) in classes.get(owner, ())]
+                if owner in ("self", "cls"):
+                    cands = [cc for k in ({name} | closure(name, parents)) for (_, cc) in classes.get(k, ())]
+                for cc in cands:
+                    for b in cc.body:
+                        if isinstance(b, ast.Assign) and len(b.targets) == 1 and isinstance(b.targets[0], ast.Name) \
+                                and b.targets[0].id == val.attr and _is_mutable_display(b.value) and (owner != "self" or val.attr != attr):
+                            why = "the class-level object `%s.%s` (one object for all instances)" % (cc.name, val.attr)
+            if why:
+                findings.append((label, name, f.name, attr, stmt, why, sites[0]))
+    return obligations, findings
+
+
+_SHARED_POSITIVE = '''
+_DEFAULT = ["."]
+class R:
+    def __init__(self, dirs=[]):
+        self.include_dirs = _DEFAULT
+        self.other = dirs
+        self.fresh = ["."]
+class S(R):
+    def go(self, d):
+        self.include_dirs.insert(0, d)
+        self.other.append(d)
+        self.fresh.append(d)
+'''
+
+
+def shared_state_rule(m, rid, modules=None, floor=20):
+    r = RuleResult(rid, "an instance attribute that is changed in place (append/insert/[]=...) by its class family is never bound to a "
+                   "module-level or class-level mutable object or to a mutable parameter default: no state leaks from one reader/parser "
+                   "object into the next")
+    ob, fi = shared_state_scan({"<positive>": ast.parse(_SHARED_POSITIVE)})
+    if len(ob) != 3 or sorted(x[3] for x in fi) != ["include_dirs", "other"]:
+        r.error("the positive example is no longer recognised (%d obligations, findings %s)" % (len(ob), [x[3] for x in fi]))
+        return r
+    trees = {path: tree for path, (_, tree) in m.files.items() if modules is None or any(m.modname[path].startswith(p) for p in modules)}
+    ob, fi = shared_state_scan(trees)
+    r.floor = floor
+    for path, cname, fname, attr, stmt in ob:
+        r.instances += 1
+        r.ob(True, "%s.%s: self.%s = %s" % (cname, fname, attr, A.text(stmt.value)[:40]))
+    for path, cname, fname, attr, stmt, why, site in fi:
+        r.fail("%s.%s|shared-state|%s" % (cname, fname, attr), "%s.%s binds self.%s to %s, and `%s` (line %d) changes it in place: what one "
+               "object adds is seen by every later one (e.g. include directories of an earlier file, entries of an earlier parse)"
+               % (cname, fname, attr, why, A.text(site)[:50], site.lineno), "%s:%s" % (m.rel(path), stmt.lineno))
+    return r
+
+
+# ---------------------------------------------------------------------------------------------------------------
+# memoisation: a memoised function must be a function of its arguments
+IMPURE_NAMES = {"open", "input"}
+IMPURE_ATTRS = {"read", "readline", "readlines", "seek", "tell", "listdir", "exists", "isfile", "isdir", "getmtime", "stat", "glob", "walk"}
+
+
+def _memo_kind(f, module_mutables):
+    for d in f.decorator_list:
+        t = A.text(d)
+        if "lru_cache" in t or t.split("(")[0].split(".")[-1] in ("cache", "cached_property", "memoize", "memoise"):
+            return "decorator @%s" % t.split("(")[0]
+    for name, default in A.param_defaults(f).items():
+        if isinstance(default, ast.Dict) or (isinstance(default, ast.Call) and A.text(default.func) == "dict"):
+            if any(isinstance(n, ast.Assign) and any(isinstance(t, ast.Subscript) and isinstance(t.value, ast.Name) and t.value.id == name
+                                                      for t in n.targets) for n in ast.walk(f)):
+                return "mutable default `%s={}` filled by the function" % name
+    stores = {t.value.id for n in ast.walk(f) if isinstance(n, ast.Assign) for t in n.targets
+              if isinstance(t, ast.Subscript) and isinstance(t.value, ast.Name) and t.value.id in module_mutables}
+    loads = {n.value.value.id for n in ast.walk(f) if isinstance(n, ast.Return) and isinstance(n.value, ast.Subscript)
+             and isinstance(n.value.value, ast.Name)}
+    for nm in sorted(stores & loads):
+        return "module-level table `%s` filled and returned from" % nm
+    return None
+
+
+def memo_scan(tree):
+    """(functions scanned, [(func node, memo kind, impure call node)]) for one module: memoised functions that (through calls to functions
+    of the same module) read the outside world."""
+    funcs = {}
+    for n in ast.walk(tree):
+        if isinstance(n, (ast.FunctionDef, ast.AsyncFunctionDef)):
+            funcs.setdefault(n.name, []).append(n)
+    mutables = {n.targets[0].id for n in tree.body if isinstance(n, ast.Assign) and len(n.targets) == 1
+                and isinstance(n.targets[0], ast.Name) and _is_mutable_display(n.value)}
+
+    def impure(f, seen):
+        if id(f) in seen:
+            return None
+        seen.add(id(f))
+        for n in ast.walk(f):
+            if isinstance(n, ast.Call):
+                if isinstance(n.func, ast.Name) and n.func.id in IMPURE_NAMES:
+                    return n
+                if isinstance(n.func, ast.Attribute) and n.func.attr in IMPURE_ATTRS:
+                    return n
+                if isinstance(n.func, ast.Attribute) and n.func.attr == "open" and A.text(n.func.value) in ("io", "os", "codecs"):
+                    return n
+        for n in ast.walk(f):
+            if isinstance(n, ast.Call):
+                nm = n.func.id if isinstance(n.func, ast.Name) else (n.func.attr if isinstance(n.func, ast.Attribute) and
+                                                                      isinstance(n.func.value, ast.Name) and n.func.value.id in ("self", "cls") else None)
+                for g in funcs.get(nm, ()):
+                    hit = impure(g, seen)
+                    if hit is not None:
+                        return hit
+        return None
+
+    out = []
+    n_funcs = 0
+    for lst in funcs.values():
+        for f in lst:
+            n_funcs += 1
+            kind = _memo_kind(f, mutables)
+            if kind:
+                out.append((f, kind, impure(f, set())))
+    return n_funcs, out
+
+
+_MEMO_POSITIVE = '''
+import functools
+_T = {}
+@functools.lru_cache(maxsize=8)
+def a(name):
+    return b(name)
+def b(name):
+    with open(name) as fh:
+        return fh.read()
+def c(name, _cache={}):
+    if name in _cache:
+        return _cache[name]
+    _cache[name] = b(name)
+    return _cache[name]
+def d(name):
+    if name not in _T:
+        _T[name] = len(name)
+    return _T[name]
+'''
+
+
+def memo_purity_rule(m, rid, modules, what, floor):
+    r = RuleResult(rid, "no memoised function (lru_cache/cache decorator, mutable-default table, module-level table) on the %s path reads "
+                   "a file or the file system: %s" % (what[0], what[1]))
+    n, hits = memo_scan(ast.parse(_MEMO_POSITIVE))
+    got = sorted((f.name, imp is not None) for f, k, imp in hits)
+    if got != [("a", True), ("c", True), ("d", False)]:
+        r.error("the positive example is no longer recognised: %s" % got)
+        return r
+    r.floor = floor
+    for path, (_, tree) in sorted(m.files.items()):
+        if m.modname[path] not in modules:
+            continue
+        n, hits = memo_scan(tree)
+        r.instances += n
+        for f, kind, imp in hits:
+            r.ob(imp is None, "%s.%s memoised (%s), pure" % (m.modname[path], f.name, kind))
+            if imp is not None:
+                r.fail("%s.%s|memoised-io" % (m.modname[path], f.name), "%s.%s is memoised (%s) but its result depends on the outside world "
+                       "(`%s`, line %d): the answer for a file name is remembered although the file's content can change between two reads"
+                       % (m.modname[path], f.name, kind, A.text(imp)[:50], imp.lineno), "%s:%s" % (m.rel(path), f.lineno))
+    r.ob(True, "%d functions scanned" % r.instances)
+    return r
+
+
+# ---------------------------------------------------------------------------------------------------------------
+# recording loops are total: every element of the iterated collection is recorded, none is skipped by break/return
+def per_iteration(m, f, stmts, is_event):
+    """One iteration of a loop body (or one branch of it): (ends, bad) where ends = number of ways the iteration ends and bad = list of
+    (kind, node-or-None) for ends that leave the loop early or complete without the event call."""
+    cl = PassClient(is_event)
+    fl = F.Flow(m, f, cl)
+    out = fl.block(stmts, {F.State({"$done": F.FALSE})}, None)
+    bad = []
+    ends = len(out.normal) + len(out.cont) + len(out.brk) + len(out.ret)
+    for st in out.brk:
+        bad.append(("break", None))
+    for st, node in out.ret:
+        bad.append(("return", node))
+    for st in list(out.normal) + list(out.cont):
+        if st.get("$done") != F.TRUE:
+            bad.append(("skip", None))
+    return ends, bad
+
+
+def recording_loops_rule(m, rid):
+    r = RuleResult(rid, "the loops that record declared entities and USE ... ONLY names in the scope's table are total: every iteration "
+                   "reaches the recording call, none leaves the loop early (path-sensitive, per loop body / per isinstance branch)")
+    r.floor = 3
+    k = m.key("Type_Declaration_Stmt", F03)
+    a = m.method(k, "add_to_symbol_table")
+    if a is None:
+        r.error("Type_Declaration_Stmt.add_to_symbol_table vanished")
+        return r
+    loops = [n for n in A.body_nodes(a.node) if isinstance(n, ast.For)
+             and any(isinstance(c, ast.Call) and A.text(c.func).endswith("add_data_symbol") for c in ast.walk(n))]
+    if len(loops) != 1:
+        r.error("add_to_symbol_table: %d loops contain add_data_symbol (anchor changed)" % len(loops))
+        return r
+    r.instances += 1
+    ends, bad = per_iteration(m, a, loops[0].body, lambda c: A.text(c.func).endswith("add_data_symbol"))
+    r.ob(not bad and ends > 0, "add_to_symbol_table: %d iteration ends, all after add_data_symbol" % ends)
+    if bad:
+        kinds = sorted({b[0] for b in bad})
+        r.fail("add_to_symbol_table|iteration|%s" % "+".join(kinds), "Type_Declaration_Stmt.add_to_symbol_table: an iteration over the declared "
+               "entities can end (%s) without add_data_symbol: a declared name is then missing from the table of the scope that declares "
+               "it (it may be visible from an outer scope or a used module, but it is this scope's own entity)" % ", ".join(kinds), m.loc(a, loops[0]))
+    u = m.method(m.key("Use_Stmt", F03), "match")
+    if u is None:
+        r.error("Use_Stmt.match vanished")
+        return r
+    loops = [n for n in A.body_nodes(u.node) if isinstance(n, ast.For) and A.text(n.iter).endswith(".children")
+             and any(isinstance(c, ast.Call) and A.text(c.func) == "only_list.append" for c in ast.walk(n))]
+    if len(loops) != 1:
+        r.error("Use_Stmt.match: %d loops over the only-list fill only_list (anchor changed)" % len(loops))
+        return r
+    loop = loops[0]
+    var = A.text(loop.target)
+    # early exits anywhere in the iteration
+    r.instances += 1
+    ends, bad = per_iteration(m, u, loop.body, lambda c: False)
+    early = [b for b in bad if b[0] in ("break", "return")]
+    r.ob(not early, "Use_Stmt.match: no iteration over the only-list leaves the loop (%d ends)" % ends)
+    if early:
+        r.fail("Use_Stmt.match|only-loop|early-exit", "Use_Stmt.match: an iteration over the ONLY list can leave the loop (%s): every name after "
+               "that entry is missing from the scope's record of the module, so it no longer shadows an intrinsic of the same name"
+               % ", ".join(sorted({b[0] for b in early})), m.loc(u, loop))
+    # the Name and Rename branches record
+    branches = {}
+    for n in ast.walk(loop):
+        if isinstance(n, ast.If) and isinstance(n.test, ast.Call) and A.text(n.test.func) == "isinstance" and len(n.test.args) == 2 \
+                and A.text(n.test.args[0]) == var and isinstance(n.test.args[1], ast.Name):
+            branches.setdefault(n.test.args[1].id, n)
+    for cname in ("Name", "Rename"):
+        r.instances += 1
+        br = branches.get(cname)
+        if br is None:
+            r.ob(False)
+            r.fail("Use_Stmt.match|only-loop|%s" % cname, "Use_Stmt.match: the ONLY-list loop has no branch for %s entries" % cname, m.loc(u, loop))
+            continue
+        body = br.body
+        if cname == "Rename":
+            # a rename of an operator (children[0] == 'OPERATOR') is deliberately not recorded (TODO #379 in the source): the obligation
+            # is on the branch for a rename of a name
+            stmts = A.strip_docstring(body)
+            if len(stmts) == 1 and isinstance(stmts[0], ast.If):
+                t = A.text(stmts[0].test)
+                if t in ("not %s.children[0]" % var, "%s.children[0] is None" % var):
+                    body = stmts[0].body
+                elif t in ("%s.children[0]" % var, "%s.children[0] is not None" % var):
+                    body = stmts[0].orelse
+        ends, bad = per_iteration(m, u, body, lambda c: A.text(c.func) == "only_list.append")
+        r.ob(not bad and ends > 0, "Use_Stmt.match: %s entries: %d ends, all after only_list.append" % (cname, ends))
+        if bad:
+            r.fail("Use_Stmt.match|only-loop|%s" % cname, "Use_Stmt.match: a %s entry of the ONLY list can be passed over without being added to "
+                   "only_list (%s)" % (cname, ", ".join(sorted({b[0] for b in bad}))), m.loc(u, br))
+    return r
